@@ -137,12 +137,15 @@ namespace _fmt_basics {
 		};
 
 		// print the number in reverse order and determine #digits.
-		do {
-			FRG_ASSERT(k < 64); // TODO: variable number of digits
-			buffer[k++] = digits[number % radix];
-			number /= radix;
-			step_grouping();
-		} while(number);
+		// A zero value with precision zero has no digits at all.
+		if(number || precision) {
+			do {
+				FRG_ASSERT(k < 64); // TODO: variable number of digits
+				buffer[k++] = digits[number % radix];
+				number /= radix;
+				step_grouping();
+			} while(number);
+		}
 
 		if (k < precision)
 			for (int i = 0; i < precision - k; i++)
